@@ -41,6 +41,7 @@ import (
 	"github.com/zeromicro/go-zero/core/stores/redis"
 	"github.com/zeromicro/go-zero/core/stores/sqlc"
 	"github.com/zeromicro/go-zero/core/stores/sqlx"
+	"github.com/zeromicro/go-zero/core/syncx"
 	"verifh/hx"
 )
 
@@ -48,8 +49,10 @@ type Case struct {
 	ID       int        `json:"id"`
 	Kind     string     `json:"kind"`
 	Nodes    int        `json:"nodes"`
-	Expiry   int64      `json:"expiry"`   // ns; <= 0: option not given
-	NfExpiry int64      `json:"nfexpiry"` // ns; <= 0: option not given
+	Expiry   int64      `json:"expiry"`   // ns: cache.WithExpiry(expiry), any sign, when ExpOpt
+	NfExpiry int64      `json:"nfexpiry"` // ns: cache.WithNotFoundExpiry(nfexpiry), any sign, when NfOpt
+	ExpOpt   *bool      `json:"expopt"`   // the option is passed (absent: iff expiry > 0)
+	NfOpt    *bool      `json:"nfopt"`
 	PkKind   string     `json:"pkkind"`   // int | str
 	Rows     [][]string `json:"rows"`     // initial database rows [pk,u,v] (texts)
 	Ops      [][]any    `json:"ops"`
@@ -58,6 +61,8 @@ type Case struct {
 	RType    string     `json:"rtype"`   // node | cluster (redis.ClusterType: per-key DEL)
 	Conn     string     `json:"conn"`    // conf (sqlc.NewConn) | node (sqlc.NewNodeConn, 1 node)
 	Api      int        `json:"api"`     // 0: ...Ctx methods, 1: context-free wrappers, 2: alternating
+	Gap      int64      `json:"gap"`     // sqlc.cacheSafeGapBetweenIndexAndPrimary (ns) as extracted from the sources
+	Layer    string     `json:"layer"`   // sqlc (default) | cache: cache.Cache driven directly (context-free methods)
 	Readers  int        `json:"readers"` // kind conc*
 	Present  bool       `json:"present"` // kind conc*
 	Pk       string     `json:"pk"`      // kind conc*: primary key of the row
@@ -456,14 +461,21 @@ func dump(nodes int) []Entry {
 	return res
 }
 
-func newConn(c Case) sqlc.CachedConn {
+// the constructor's options are part of the case: absent, or given with any value (an unset
+// config field forwarded as WithExpiry(0), a negative duration)
+func options(c Case) []cache.Option {
 	var opts []cache.Option
-	if c.Expiry > 0 {
+	if (c.ExpOpt == nil && c.Expiry > 0) || (c.ExpOpt != nil && *c.ExpOpt) {
 		opts = append(opts, cache.WithExpiry(time.Duration(c.Expiry)))
 	}
-	if c.NfExpiry > 0 {
+	if (c.NfOpt == nil && c.NfExpiry > 0) || (c.NfOpt != nil && *c.NfOpt) {
 		opts = append(opts, cache.WithNotFoundExpiry(time.Duration(c.NfExpiry)))
 	}
+	return opts
+}
+
+func newConn(c Case) sqlc.CachedConn {
+	opts := options(c)
 	if c.Conn == "node" && c.Nodes == 1 {
 		var ro []redis.Option
 		if rtype == redis.ClusterType {
@@ -479,6 +491,45 @@ func newConn(c Case) sqlc.CachedConn {
 		})
 	}
 	return sqlc.NewConn(nil, conf, opts...)
+}
+
+// the cache.Cache underneath, built directly (cache.New / cache.NewNode)
+func newCache(c Case) cache.Cache {
+	opts := options(c)
+	var conf cache.CacheConf
+	for n := 0; n < c.Nodes; n++ {
+		conf = append(conf, cache.NodeConf{
+			RedisConf: redis.RedisConf{Host: servers[n].Addr(), Type: rtype},
+			Weight:    100,
+		})
+	}
+	return cache.New(conf, syncx.NewSingleFlight(), cache.NewStat("verif"), sql.ErrNoRows, opts...)
+}
+
+// sqlc.CachedConn.QueryRowIndexCtx, restated over the context-free methods of cache.Cache
+// (the index entry through TakeWithExpire, the primary entry SetWithExpire'd 5 s longer)
+var safeGap = 5 * time.Second
+
+func cacheQri(cc cache.Cache, db *fakeDB, u int64, key string, v any) error {
+	var primaryKey any
+	var found bool
+	if err := cc.TakeWithExpire(&primaryKey, key, func(val any, expire time.Duration) (err error) {
+		primaryKey, err = db.byIndex(u, v)
+		if err != nil {
+			return
+		}
+		found = true
+		return cc.SetWithExpire(db.keyer(primaryKey), v, expire+safeGap)
+	}); err != nil {
+		return err
+	}
+	if found {
+		return nil
+	}
+	return cc.Take(v, db.keyer(primaryKey), func(v any) error {
+		text, known := db.primary(primaryKey)
+		return db.byPrimary(text, known, v)
+	})
 }
 
 func reopen(n int) {
@@ -559,6 +610,9 @@ func setup(c Case) {
 	if c.Hole != "" {
 		hole = c.Hole
 	}
+	if c.Gap > 0 {
+		safeGap = time.Duration(c.Gap)
+	}
 }
 
 func runSeq(c Case) Out {
@@ -571,6 +625,10 @@ func runSeq(c Case) Out {
 	}
 	cc := newConn(c)
 	out.NodeOf = probe(cc, c.Nodes, c.Keys)
+	var ch cache.Cache
+	if c.Layer == "cache" {
+		ch = newCache(c)
+	}
 	ctx := context.Background()
 	delFailed := false
 	for i, op := range c.Ops {
@@ -585,7 +643,20 @@ func runSeq(c Case) Out {
 			db.mid = num(op[2])
 			kind = kind[:len(kind)-3]
 		}
+		if ch != nil {
+			switch kind {
+			case "take", "qri", "get", "exec", "set", "setex", "del":
+				isRead = kind == "take" || kind == "qri" || kind == "get"
+				err = cacheOp(ch, db, kind, op, row)
+				if err != nil && ch.IsNotFound(err) != errors.Is(err, sql.ErrNoRows) {
+					out.Err = "IsNotFound disagrees with the configured not-found error"
+					return out
+				}
+				kind = "cache:" + kind
+			}
+		}
 		switch kind {
+		case "cache:take", "cache:qri", "cache:get", "cache:exec", "cache:set", "cache:setex", "cache:del":
 		case "take":
 			p := str(op[1])
 			isRead = true
@@ -723,7 +794,7 @@ func runSeq(c Case) Out {
 		}
 		db.mid = -1
 		switch kind {
-		case "exec", "del":
+		case "exec", "del", "cache:exec", "cache:del":
 			// AddCleanTask hands the timer to the wheel's loop synchronously (unbuffered channel)
 			if faulted[0] || faulted[1] || closed[0] || closed[1] {
 				delFailed = true
@@ -741,6 +812,43 @@ func runSeq(c Case) Out {
 		out.Obs = append(out.Obs, o)
 	}
 	return out
+}
+
+// one operation on cache.Cache itself, through its context-free methods
+func cacheOp(ch cache.Cache, db *fakeDB, kind string, op []any, row any) error {
+	switch kind {
+	case "take":
+		p := str(op[1])
+		return ch.Take(row, "p"+p, func(v any) error { return db.byPrimary(p, true, v) })
+	case "qri":
+		u := i64(op[1])
+		return cacheQri(ch, db, u, "u"+strconv.FormatInt(u, 10), row)
+	case "get":
+		return ch.Get("p"+str(op[1]), row)
+	case "exec":
+		p := str(op[1])
+		present := op[2].(string) == "put"
+		var u, v int64
+		var keys []string
+		if present {
+			u, v, keys = i64(op[3]), i64(op[4]), keysOf(op[5])
+		} else {
+			keys = keysOf(op[3])
+		}
+		if e := db.write(p, present, u, v); e != nil {
+			return e
+		}
+		return ch.Del(keys...)
+	case "set":
+		p := str(op[1])
+		return ch.Set("p"+p, valueOf(Row{p, i64(op[2]), i64(op[3])}))
+	case "setex":
+		p := str(op[1])
+		return ch.SetWithExpire("p"+p, valueOf(Row{p, i64(op[2]), i64(op[3])}), time.Duration(int64(op[4].(float64))))
+	case "del":
+		return ch.Del(keysOf(op[1])...)
+	}
+	return fmt.Errorf("verif: no cache-level op %q", kind)
 }
 
 // load suppression: `readers` goroutines read the same uncached key (kind conc: QueryRow on
